@@ -158,6 +158,44 @@ func tlsExporterVsCollector(srv func(*pki) *certs.Pair, serverName string, clien
 	}
 }
 
+// tlsHostNameAddress: the collector is addressed by HOST NAME ("localhost:port") and no ServerName is configured:
+// the expected name is then that host name, not the address it resolves to.
+func tlsHostNameAddress(srv func(*pki) *certs.Pair, want bool) func(*hx.Ctx, int, *pki, bool) (string, string) {
+	return func(c *hx.Ctx, k int, p *pki, v6 bool) (string, string) {
+		s := srv(p)
+		coll, err := lib.StartCollector(collector.CollectorInput{Address: host(v6), Protocol: "tcp", MaxBufferSize: 65535, IsIPv6: v6, IsEncrypted: true, ServerCert: s.CertPEM, ServerKey: s.KeyPEM})
+		if err != nil {
+			return "collector-did-not-start", err.Error()
+		}
+		defer coll.Stop(20 * time.Second)
+		_, port, _ := net.SplitHostPort(coll.Addr())
+		if conn, err := net.DialTimeout("tcp", "localhost:"+port, 2*time.Second); err != nil {
+			c.Add("cells_skipped:localhost_does_not_reach_the_collector", 1)
+			return "", ""
+		} else {
+			conn.Close()
+		}
+		domain := uint32(0xC1800000 + k)
+		ep, err := exporter.InitExportingProcess(exporter.ExporterInput{CollectorAddress: "localhost:" + port, CollectorProtocol: "tcp", ObservationDomainID: domain, IsIPv6: v6,
+			TLSClientConfig: &exporter.ExporterTLSClientConfig{CAData: p.ca.CertPEM}})
+		if err != nil {
+			if want {
+				return "positive-cell-failed", "the exporter could not establish a session that must work: " + err.Error()
+			}
+			return "", ""
+		}
+		defer ep.CloseConnToCollector()
+		if !want {
+			return "session-with-unverifiable-server", "collector addressed as localhost:<port>, no ServerName configured: InitExportingProcess completed a TLS session although the collector's certificate does not name localhost (it names the IP address localhost resolves to)"
+		}
+		serr := sendOne(ep)
+		if got, _ := coll.Wait(domain, 2, posWait); len(got) < 2 {
+			return "positive-cell-failed", fmt.Sprintf("session established but %d of 2 messages delivered (send error: %v)", len(got), serr)
+		}
+		return "", ""
+	}
+}
+
 // clientAuthDistinctCAs: the collector's own certificate is issued by one CA (optionally supplied as a
 // full-chain bundle: leaf + issuing CA), exporters must be authenticated against ANOTHER CA.
 func clientAuthDistinctCAs(bundle bool, cli func(*pki) *certs.Pair, wantDelivery bool) func(*hx.Ctx, int, *pki, bool) (string, string) {
@@ -524,6 +562,11 @@ func main() {
 			run: tlsExporterVsCollector(func(p *pki) *certs.Pair { return p.srvWrongSAN }, "10.9.9.9", false, nil, true, true, true)})
 		cells = append(cells, cell{name: "tls server=certificate for 10.9.9.9/other.test servername=other.test", v6: v6,
 			run: tlsExporterVsCollector(func(p *pki) *certs.Pair { return p.srvWrongSAN }, "other.test", false, nil, true, true, true)})
+		// the collector addressed by host name, ServerName unset: the certificate must name the HOST NAME
+		cells = append(cells, cell{name: "tls address=localhost:<port> servername unset, certificate names collector.test and the loopback IP only", v6: v6, neg: true,
+			run: tlsHostNameAddress(func(p *pki) *certs.Pair { return p.srvTrusted }, false)})
+		cells = append(cells, cell{name: "tls address=localhost:<port> servername unset, certificate names localhost", v6: v6,
+			run: tlsHostNameAddress(func(p *pki) *certs.Pair { return certs.Issue(p.ca, certs.Opts{CN: "collector", DNS: []string{"localhost"}}) }, true)})
 		for _, bundle := range []bool{false, true} {
 			for _, ck := range []struct {
 				name string
